@@ -134,7 +134,7 @@ func family(fam string, S int, th bool) []*scenario {
 			out = append(out, one("bolt", segs(n), nil), one("bolt", n*S, nil))
 		}
 	case "sched2":
-		ns := []int{1, 2, 3, 4, 5, 6, 11}
+		ns := []int{1, 2, 3, 4, 5, 6}
 		if !scaled {
 			ns = []int{1, 2, 3}
 			if th {
@@ -298,14 +298,14 @@ func allConfigs(th bool) []explore.Config {
 	return c
 }
 
-const rule = "two real object.Client instances on a harness ndn.Engine; per scenario (store, publications with content length/buffer split/version, removals, consumers) every history that departs at most k times from the default schedule (client select arms in source order, FIFO delivery, timeouts only for lost Interests) is run to completion; deviations: another ready select arm, out-of-order delivery, packet loss, early/late timeout, removal during the fetch; family perm explores every delivery order with no bound; a case is non-trivial when it fetched an object of >=2 segments"
+const rule = "two real object.Client instances on a harness ndn.Engine; per scenario (store, publications with content length/buffer split/version, removals, consumers) every history that departs at most k times from the default schedule (client select arms in source order, FIFO delivery, timeouts only for lost Interests) is run to completion; deviations: another ready select arm, out-of-order delivery, packet loss, early/late timeout, a fatal per-Interest result (Nack, engine error) for a metadata or segment Interest, removal during the fetch; family perm explores every delivery order with no bound; a case is non-trivial when it fetched an object of >=2 segments"
 
 var assumptions = []string{
 	"the select in Client.run() is replaced by hook VerifStep (one arm per call, same arm bodies); the engine callbacks only perform channel sends, so arm-granular interleaving covers the goroutine interleavings of the production client",
 	"harness engine = pending-Interest table with name/CanBePrefix matching like engine/basic (a Data satisfies every matching pending Interest; a timed-out Interest no longer receives Data); no cache, no forwarder; signatures are not validated",
 	"scaled model: pSegmentSize overridden to 4 at check time (cmd/xform -const) with content lengths 1..45 (1..12 segments, crossing the fetch window of 10); the real constant 8000 is exercised by a second build with lengths 1, 7999, 8000, 8001, 15999, 16000, 16001, 24001 (thorough: 88001)",
 	"content bytes are a position-dependent hash so that swapped, duplicated, dropped or shifted segments change the byte stream",
-	"error completion is accepted only if some Interest name of that fetch timed out more than Retries(3) times; a packet absent from the store (never published or removed) makes its Interests time out",
+	"error completion is accepted only if some Interest name of that fetch timed out more than Retries(3) times or received a Nack / engine error (final, never retried); a packet absent from the store (never published or removed) makes its Interests time out",
 	"canonical state = scenario + removals injected + consumer observations + per-name timeout counts + network list + white-box dump of the client queues and fetcher; finished runs collapse to one state",
 	"BoltStore runs with NoSync on a per-process file under /tmp that is emptied between instances (durability is not part of the property)",
 	"fetcher.doCheck termination is predicted by a transcription of its loop (hook VerifDoCheckSpins) because a spinning goroutine cannot be interrupted; an unpredicted hang is turned into CHECK-ERROR by a watchdog",
